@@ -3,7 +3,7 @@
 GLOBAL_TRUSTED = [
     'Verus 0.2026.09.13 (VC generator, vstd std-library specifications), Z3',
     'units/common/std_prelude.rs: assume_specification contracts and axioms for std items vstd does not specify',
-    'extraction rules E1-E9 (tools/extract.py) preserve meaning; rewrites applied are listed per run in build/<unit>.rewrites.json',
+    'extraction rules E1-E15 (tools/extract.py; DESIGN.md section 2.1) preserve meaning, U1-U6 are trusted cuts or trusted std contracts through wrappers; rewrites applied are listed per run in build/<unit>.rewrites.json',
 ]
 GLOBAL_ASSUMPTIONS = [
     'machine integers are NOT treated as mathematical: every usize/u32 operation carries an overflow obligation',
@@ -56,16 +56,16 @@ CLS = 'the class predicate closure is a total deterministic function of (class i
 
 ITER = 'fm_inv(iterator): cursor on a char boundary of the input, line_offsets sorted true line starts beginning with 0, last_char consistent with the char before the cursor (established by FindMatchesImpl::new, preserved by every method; proved)'
 UTF8 = 'UTF-8 bridge axioms (units/common/str_prelude.rs): byte offsets of char prefixes are char boundaries, byte length = sum of encoded lengths, slicing at such an offset splits the char sequence there'
-C02DEP = 'that the compiled automaton recognises exactly the pattern languages is property C02 (not decided here): every statement is relative to the compiled automaton'
+C02DEP = 'every scan-side statement is over the relations acc / la_ok / cand of the compiled automaton (units/common/dfa_match.rs). What these mean for the patterns is PROVED in unit U-build: theorem_scanner_cand: for mode k of a scanner built by ScannerImpl::try_from, cand(core(dfa), cls, text, l, tid) <==> p_cand(patterns of mode k, lf, text, l, tid) (some pattern with token type tid matches the first l characters and the lookahead of the LAST pattern with that token type that carries one agrees with the rest), under the hypotheses of C02: cls_ok (class predicate = leaf meaning on the final registry), lf_respects, the parser (spec_parse), the size assumptions modes_fit'
 
 reg('C01', ['u_dfa', 'u_mode', 'u_iter', 'u_build'],
     'find_from ensures find_post (longest accepted non-empty prefix; ties -> first in terminal_ids) for every wf automaton, class predicate and input; ScannerImpl::find_from/peek_from the same for the active mode; next_match ensures is_next_tok: the token is the find_post outcome at the first char index >= cursor that has any candidate, skipped positions have none, spans absolute (add_offset), cursor moves to the token end; None only if no position has a candidate; lemma_stream_unique: for lookahead-free configurations the whole stream (stream_from = chain of is_next_tok with the mode following the transitions) is a function of configuration, input, position and mode ("exactly the tokens")',
     [WF, CLS, ITER, UTF8, C02DEP, 'add_patterns (token type = pattern index) is not under contract: Vec<Pattern> construction through iterator adapters'],
     technique='Verus function contracts (requires/ensures/loop invariants) on code extracted from /repo each run')
-reg('C04', ['u_dfa', 'u_mode', 'u_iter'],
+reg('C04', ['u_dfa', 'u_mode', 'u_iter', 'u_build'],
     'a reported token is a cand: accepted by its pattern automaton AND la_ok(tid, rest at token end) (positive: some non-empty prefix of the rest matched by the lookahead automaton; negative: none; empty rest => positive fails); span end = start + own bytes (lookahead never inside); converse: find_post forbids None while a candidate exists; call sites next_match/peek_n establish that the haystack slice and the iterator indices refer to the same text for every offset (ci_at precondition of find_from)',
     [WF, CLS, ITER, UTF8, C02DEP])
-reg('C05', ['u_dfa'], 'find_post: the reported (length, token type) is one candidate with satisfied lookahead that is no_better-maximal in extent = own bytes + longest positive-lookahead match, ties by first position in terminal_ids; all unwrap/index/overflow obligations of find_from, priority_of, satisfies_lookahead', [WF, CLS])
+reg('C05', ['u_dfa', 'u_build'], 'find_post: the reported (length, token type) is one candidate with satisfied lookahead that is no_better-maximal in extent = own bytes + longest positive-lookahead match, ties by first position in terminal_ids; all unwrap/index/overflow obligations of find_from, priority_of, satisfies_lookahead', [WF, CLS])
 
 reg('C06', ['u_mode', 'u_iter', 'u_api', 'u_build'], 'mode after every operation is the function of (old mode, token type, transition list) the property states: has_transition == lookup in the sorted list; find_from switches, peek_from/has_transition/current_mode do not, set_mode sets, reset gives 0', [WF, 'set_mode(m) is called with m < number of modes (documented precondition)'])
 
